@@ -72,6 +72,7 @@ type FuncContract struct {
 	AllocBound map[int]string
 	Fresh      []string // results that are freshly allocated
 	Trusted    bool     // body is not verified (explicitly listed as assumption)
+	DeadEdges  int      // number of control-flow edges accepted as infeasible (defensive code)
 }
 
 type SpecFunc struct {
@@ -442,6 +443,12 @@ func parseSpecFile(path string, pkgPath string, raw bool) (*SpecFile, error) {
 			cur.Neutral = true
 		case "trusted":
 			cur.Trusted = true
+		case "deadedges":
+			k, err := strconv.Atoi(strings.TrimSpace(rest))
+			if err != nil {
+				return nil, fail(i, "deadedges needs a number")
+			}
+			cur.DeadEdges = k
 		case "fresh":
 			cur.Fresh = append(cur.Fresh, splitTopLevel(rest, ',')...)
 		case "ghost":
